@@ -11,7 +11,7 @@
 EXTENDS XlCriteria, C12Grid, Json
 CONSTANTS R, Reduced, Bools
 VARIABLE st
-Pool == IF Bools THEN BoolCells ELSE IF Reduced THEN {NQ(0), NQ(20), NQ(28), NQ(10), TX(<<120>>), TX(<<97, 112, 112, 108, 101>>), TX(<<98, 63>>), BlankC} ELSE Cells
+Pool == IF Bools THEN BoolCells ELSE IF Reduced THEN {NQ(0), NQ(20), NQ(28), NQ(10), TX(<<120>>), TX(<<97, 112, 112, 108, 101>>), TX(<<98, 63>>), TX(<<97, 112, 112, 10, 108, 101>>), BlankC} ELSE Cells
 Spellings(crit) == IF crit.op = "EQ" THEN {"value", "valuecell", "eqlit", "cellcrit"}
                    ELSE IF crit.operand.k = "num" THEN {"oplit", "opcat", "cellcrit"} ELSE {"oplit", "cellcrit"}
 SetToSeq(S) == LET RECURSIVE F(_)
